@@ -3,6 +3,7 @@ package accum
 import (
 	"context"
 	"errors"
+	"fmt"
 	"io"
 	"sync"
 
@@ -153,6 +154,9 @@ buffersLoop:
 			if data == nil {
 				oa.sendToFlusher(nil, children)
 				break buffersLoop
+			}
+			if len(data) < 2 {
+				return fmt.Errorf("object %s at offset %d is too short (%d bytes)", cid_, currentOffset, len(data))
 			}
 
 			element := ObjectWithMetadata{
